@@ -4,6 +4,7 @@ package transforms32
 
 import (
 	"image"
+	"unsafe"
 
 	cpu "github.com/klauspost/cpuid/v2"
 )
@@ -17,8 +18,20 @@ func init() {
 	}
 }
 
+// AsmYCbCrToGray converts a YCbCr image to grayscale pixels.
+// The assembly loop handles one layout only: 4:4:4 planes without row padding, a width that is
+// a multiple of 8 and a 32-byte aligned destination. It addresses the planes (which start at
+// Rect.Min) and the destination with y*stride+x for x,y counted from 0. Every other image is
+// converted by the portable loop.
 func AsmYCbCrToGray(c *image.YCbCr, pixels []float32) {
-	asmYCbCrToGray(pixels,
-		c.Rect.Min.X, c.Rect.Min.Y, c.Rect.Max.X, c.Rect.Max.Y,
-		c.Y, c.Cb, c.Cr, c.YStride, c.CStride)
+	w, h := c.Rect.Dx(), c.Rect.Dy()
+	n := w * h
+	if c.SubsampleRatio != image.YCbCrSubsampleRatio444 || w <= 0 || h <= 0 || w%8 != 0 ||
+		c.YStride != w || c.CStride != w ||
+		len(c.Y) < n || len(c.Cb) < n || len(c.Cr) < n || len(pixels) < n ||
+		uintptr(unsafe.Pointer(&pixels[0]))%32 != 0 {
+		yCbCrToGrayAlt(c, pixels)
+		return
+	}
+	asmYCbCrToGray(pixels, 0, 0, w, h, c.Y, c.Cb, c.Cr, c.YStride, c.CStride)
 }
